@@ -43,7 +43,10 @@ RULE_ADDED = (
               'Round 12: device certificate headers beginning with 0x02 / 0x04 / 0x00. '
               ' '
               'Round 13: the onboarding command run again, same output file, on the device it h'
-              'as onboarded: turned down, certificate file untouched. ')
+              'as onboarded: turned down, certificate file untouched. '
+              ' '
+              'Round 14: a quarter of the admin-tool environments export terminal / locale vari'
+              'ables. ')
 RULE = RULE + " " + RULE_ADDED.strip()
 ASSUMPTIONS = [
     "the genuine-device models in pv/simdev/genuine.py (endorsement scheme two: signatures by "
